@@ -1283,3 +1283,253 @@ Proof.
   destruct IsoCheckProofs.ex_iso_accepts as [H1 [H2 [H3 _]]]. destruct IsoCheckProofs.ex_iso_rejects as [H4 _]. auto.
 Qed.
 Print Assumptions C20_iso_check_example.
+
+(* ================================================================================================
+   STOREREF — BOTH node stores refine ONE abstract reference-counted store.
+   The index-based manager's node store (coq/Mgr/IndexStore.v) = the slot allocator of package ALLOC
+   (coq/Mgr/Alloc.v, every thread's `LocalStoreState`, any interleaving) x the contents of the slots that
+   hold a node (payload, STORED count: the unique table's edge is counted) x the edge values that exist
+   (handle variable -> slot ID; a child edge is an edge value held by a node).  Operations: `add_node` by a
+   thread (count 2, two edges, the children are moved into the node; on OutOfMemory they are released),
+   `clone_edge`, `drop_edge` (never frees a slot: the code assumes it is not the last edge), the collector's /
+   `try_remove_node`'s removal (`load_rc == 1` -> `free_slot` by a thread: children released, slot back to the
+   allocator), every allocator-internal action.  (Qualified names: nothing is imported.) *)
+From OxiVerif Require Mgr.Alloc Mgr.AllocInv Mgr.AllocProofs Mgr.AllocExamples Mgr.IndexStore Mgr.IndexStoreProofs
+  Mgr.IndexStoreEquiv Mgr.IndexStoreExamples.
+
+(* the abstraction (ids = slot IDs), the abstract script an operation stands for, and the invariant *)
+Theorem C20_index_abs_def : forall s o r,
+  IndexStore.iabs s = RcStore.mkA (IndexStore.nget (IndexStore.i_nodes s)) (IndexStore.i_hs s) /\
+  IndexStore.abs_ops o r =
+    match o, r with
+    | IndexStore.IAdd _ h h2 p _, IndexStore.IRAdded _ _ => [RcStore.AAdd h p; RcStore.AClone h h2]
+    | IndexStore.IAdd _ _ _ _ cs, IndexStore.IROom _ => map RcStore.AEnd cs
+    | IndexStore.IRetain h h2, IndexStore.IRCount _ => [RcStore.AClone h h2]
+    | IndexStore.IRelease h, IndexStore.IRReleased _ => [RcStore.AEnd h]
+    | IndexStore.IRemove _ h, IndexStore.IRRemoved _ kids _ => RcStore.AEnd h :: map RcStore.AEnd kids
+    | IndexStore.IGet h, IndexStore.IRVal _ _ => [RcStore.AGet h]
+    | _, _ => []
+    end /\
+  IndexStore.abs_res o r =
+    match o, r with
+    | IndexStore.IAdd _ _ _ _ _, IndexStore.IRAdded _ _ => [RcStore.ARAdded; RcStore.ARCount 2]
+    | IndexStore.IAdd _ _ _ _ cs, IndexStore.IROom _ => map (fun _ => RcStore.ARKept) cs
+    | IndexStore.IRetain _ _, IndexStore.IRCount rc => [RcStore.ARCount rc]
+    | IndexStore.IRelease _, IndexStore.IRReleased _ => [RcStore.ARKept]
+    | IndexStore.IRemove _ _, IndexStore.IRRemoved p kids _ => RcStore.ARGone p :: map (fun _ => RcStore.ARKept) kids
+    | IndexStore.IGet _, IndexStore.IRVal p rc => [RcStore.ARVal p rc]
+    | _, _ => []
+    end /\
+  IndexStore.leaked r =
+    match r with
+    | IndexStore.IROom lk | IndexStore.IRReleased lk | IndexStore.IRRemoved _ _ lk => lk
+    | _ => false
+    end.
+Proof. intros. repeat split; reflexivity. Qed.
+Print Assumptions C20_index_abs_def.
+
+Theorem C20_index_inv_def : forall c s,
+  IndexStoreProofs.IInv c s <->
+  (AllocInv.AInv c (IndexStore.i_al s) /\
+   (forall id, Alloc.sget (Alloc.sl (IndexStore.i_al s)) id = Alloc.SNode <-> IndexStore.nget (IndexStore.i_nodes s) id <> None) /\
+   RcStore.AInv N N.eqb (IndexStore.iabs s) /\
+   NoDup (map fst (IndexStore.i_own s)) /\
+   (forall k pid, In (k, pid) (IndexStore.i_own s) ->
+      RcStore.afind k (IndexStore.i_hs s) <> None /\ IndexStore.nget (IndexStore.i_nodes s) pid <> None)).
+Proof. intros. reflexivity. Qed.
+Print Assumptions C20_index_inv_def.
+
+Theorem C20_index_init_inv : forall c n, (1 <= Alloc.chunk c)%N -> (1 <= Alloc.term c)%N ->
+  IndexStoreProofs.IInv c (IndexStore.iinit c n).
+Proof. exact IndexStoreProofs.iinit_inv. Qed.
+Print Assumptions C20_index_init_inv.
+
+(* THE REFINEMENT: every operation of every thread that stays inside the code's assumption (no `drop_edge` of
+   a last edge) keeps the invariant and IS its abstract script with the same results: one abstract step for
+   clone / drop / read, two for `add_node`, 1 + #children for a removal, the children's releases for a failed
+   `add_node`, NO step (a stutter: the abstract state is unchanged) for a kept entry and for every
+   allocator-internal action (prepare, guard drop, hand-over of lists, worker binding, collector epilogue) *)
+Theorem C20_index_refines_store : forall c s o s' r,
+  IndexStoreProofs.IInv c s -> IndexStore.istep c s o = Some (s', r) -> IndexStore.leaked r = false ->
+  IndexStoreProofs.IInv c s' /\
+  RcStore.aruns N N.eqb (IndexStore.iabs s) (IndexStore.abs_ops o r) (IndexStore.abs_res o r) (IndexStore.iabs s').
+Proof. exact IndexStoreProofs.istep_refines. Qed.
+Print Assumptions C20_index_refines_store.
+
+(* whole runs = any interleaving of the threads' operations *)
+Theorem C20_index_run_refines : forall c ops s s' rs,
+  IndexStoreProofs.IInv c s -> IndexStore.irun c s ops = Some (s', rs) -> IndexStoreProofs.no_leak rs = true ->
+  IndexStoreProofs.IInv c s' /\
+  RcStore.aruns N N.eqb (IndexStore.iabs s) (IndexStoreProofs.flat_ops ops rs) (IndexStoreProofs.flat_res ops rs)
+    (IndexStore.iabs s').
+Proof. exact IndexStoreProofs.irun_refines. Qed.
+Print Assumptions C20_index_run_refines.
+
+Theorem C20_index_reachable_inv : forall c s,
+  (exists n ops rs, (1 <= Alloc.chunk c)%N /\ (1 <= Alloc.term c)%N /\
+     IndexStore.irun c (IndexStore.iinit c n) ops = Some (s, rs) /\ IndexStoreProofs.no_leak rs = true) ->
+  IndexStoreProofs.IInv c s.
+Proof. exact IndexStoreProofs.ireachable_inv. Qed.
+Print Assumptions C20_index_reachable_inv.
+
+(* the assumption: `drop_edge` reports a leak exactly when it was given the LAST edge of a node - where the
+   abstract store (and the slab) let the payload go, the index store keeps the node in its slot with count 0 *)
+Theorem C20_index_drop_last_leaks : forall s c0 s1 lk,
+  RcStore.AInv N N.eqb (IndexStore.iabs s) -> IndexStore.release1 s c0 = Some (s1, lk) ->
+  (lk = true <-> exists id p, RcStore.afind c0 (IndexStore.i_hs s) = Some id /\
+                              IndexStore.nget (IndexStore.i_nodes s) id = Some (p, 1%N)).
+Proof. exact IndexStoreProofs.release1_leak_iff. Qed.
+Print Assumptions C20_index_drop_last_leaks.
+
+(* OutOfMemory = the abstract store with a capacity.  [cstep (Some k)]: AAdd fails when (and only when) k
+   entries exist.  `add_node` fails ONLY IF the store holds cap entries (then the capacity store fails too) OR
+   free slots are parked with other threads (ALLOC's C14_alloc_oom_only_parked); it does fail when the store is
+   full; a successful `add_node` is two steps of the capacity store; with nothing parked elsewhere: iff *)
+Theorem C20_index_capacity_store_def : forall cap s o r s',
+  (IndexStoreProofs.afull cap s <->
+   match cap with
+   | None => False
+   | Some k => exists l, NoDup l /\ (forall id, In id l <-> RcStore.a_map s id <> None) /\ length l = k
+   end) /\
+  (IndexStoreProofs.cstep cap s o r s' <->
+   ((exists r0, r = Some r0 /\ (forall h p, o = RcStore.AAdd h p -> ~ IndexStoreProofs.afull cap s) /\
+                RcStore.astep N N.eqb s o r0 s') \/
+    (exists h p, o = RcStore.AAdd h p /\ r = None /\ s' = s /\ IndexStoreProofs.afull cap s /\
+                 RcStore.afind h (RcStore.a_hs s) = None))).
+Proof. intros. split; [destruct cap; reflexivity | apply IndexStoreProofs.cstep_def]. Qed.
+Print Assumptions C20_index_capacity_store_def.
+
+Theorem C20_index_oom_cases : forall c s t h h2 p cs s' lk,
+  IndexStoreProofs.IInv c s -> IndexStore.istep c s (IndexStore.IAdd t h h2 p cs) = Some (s', IndexStore.IROom lk) ->
+  IndexStoreProofs.cstep (Some (N.to_nat (Alloc.cap c))) (IndexStore.iabs s) (RcStore.AAdd h p) None (IndexStore.iabs s) \/
+  exists u id, u <> t /\ In id (Alloc.thread_slots c (IndexStore.i_al s) u).
+Proof. exact IndexStoreProofs.iadd_oom_cases. Qed.
+Print Assumptions C20_index_oom_cases.
+
+Theorem C20_index_full_oom : forall c s t h h2 p cs s' r,
+  IndexStoreProofs.IInv c s -> IndexStore.istep c s (IndexStore.IAdd t h h2 p cs) = Some (s', r) ->
+  Alloc.nlive c (IndexStore.i_al s) = N.to_nat (Alloc.cap c) -> exists lk, r = IndexStore.IROom lk.
+Proof. exact IndexStoreProofs.iadd_full_oom. Qed.
+Print Assumptions C20_index_full_oom.
+
+Theorem C20_index_add_capacity : forall c s t h h2 p cs s' id pa,
+  IndexStoreProofs.IInv c s -> IndexStore.istep c s (IndexStore.IAdd t h h2 p cs) = Some (s', IndexStore.IRAdded id pa) ->
+  exists s1,
+    IndexStoreProofs.cstep (Some (N.to_nat (Alloc.cap c))) (IndexStore.iabs s) (RcStore.AAdd h p) (Some RcStore.ARAdded) s1 /\
+    IndexStoreProofs.cstep (Some (N.to_nat (Alloc.cap c))) s1 (RcStore.AClone h h2) (Some (RcStore.ARCount 2)) (IndexStore.iabs s').
+Proof. exact IndexStoreProofs.iadd_capacity. Qed.
+Print Assumptions C20_index_add_capacity.
+
+Theorem C20_index_full_iff : forall c s, IndexStoreProofs.IInv c s ->
+  (IndexStoreProofs.afull (Some (N.to_nat (Alloc.cap c))) (IndexStore.iabs s) <->
+   Alloc.nlive c (IndexStore.i_al s) = N.to_nat (Alloc.cap c)).
+Proof. exact IndexStoreProofs.afull_iff. Qed.
+Print Assumptions C20_index_full_iff.
+
+Theorem C20_index_oom_single : forall c s t l h h2 p cs s' r,
+  IndexStoreProofs.IInv c s -> nth_error (Alloc.th (IndexStore.i_al s)) t = Some l ->
+  AllocProofs.others_idle_p c (IndexStore.i_al s) t ->
+  IndexStore.istep c s (IndexStore.IAdd t h h2 p cs) = Some (s', r) ->
+  ((exists lk, r = IndexStore.IROom lk) <-> Alloc.nlive c (IndexStore.i_al s) = N.to_nat (Alloc.cap c)).
+Proof. exact IndexStoreProofs.iadd_oom_single. Qed.
+Print Assumptions C20_index_oom_single.
+
+(* a client with `Arc` semantics on the index store (thread t: AAdd = `add_node` + drop of the second edge;
+   AEnd = `drop_edge`, the last one removes the node and frees the slot): every accepted operation is ONE
+   abstract step with its result, a refused one changes nothing, OutOfMemory only for AAdd *)
+Theorem C20_index_arc_step_spec : forall c t s o,
+  IndexStoreProofs.IInv c s /\ IndexStore.i_own s = [] /\ (t < length (Alloc.th (IndexStore.i_al s)))%nat ->
+  match IndexStore.arc_step c t s o with
+  | (s', IndexStore.XOk r) =>
+      RcStore.astep N N.eqb (IndexStore.iabs s) o r (IndexStore.iabs s') /\
+      (IndexStoreProofs.IInv c s' /\ IndexStore.i_own s' = [] /\ (t < length (Alloc.th (IndexStore.i_al s')))%nat)
+  | (s', IndexStore.XRej) =>
+      s' = s /\
+      match o with
+      | RcStore.AAdd h _ => RcStore.afind h (IndexStore.i_hs s) <> None
+      | RcStore.AClone h h2 => RcStore.afind h (IndexStore.i_hs s) = None \/ RcStore.afind h2 (IndexStore.i_hs s) <> None
+      | RcStore.AEnd h | RcStore.AGet h => RcStore.afind h (IndexStore.i_hs s) = None
+      end
+  | (s', IndexStore.XOom) =>
+      exists h p lk, o = RcStore.AAdd h p /\
+        IndexStore.istep c s (IndexStore.IAdd t h (IndexStore.fresh_h h (IndexStore.i_hs s)) p []) = Some (s', IndexStore.IROom lk)
+  | (_, IndexStore.XBroken) => False
+  end.
+Proof. exact IndexStoreEquiv.arc_step_spec. Qed.
+Print Assumptions C20_index_arc_step_spec.
+
+(* STORE EQUIVALENCE.  From ANY state of the index store without edges (new manager, or after any
+   allocator-internal prefix: guards, bound workers, other threads' parked slots, re-used slots), any thread:
+   for every script without OutOfMemory the index store returns the results of the reference store with ids
+   0, 1, 2, ... (rejected operations included) ... *)
+Theorem C20_index_equiv_reference : forall c t s ops,
+  IndexStoreProofs.IInv c s -> IndexStore.i_hs s = [] -> (t < length (Alloc.th (IndexStore.i_al s)))%nat ->
+  ~ In IndexStore.XOom (IndexStore.idx_exec c t s ops) ->
+  IndexStore.idx_exec c t s ops = map IndexStoreEquiv.lift (ArcSlabRefine.ref_exec ArcSlabRefine.rinit ops).
+Proof. exact IndexStoreEquiv.index_equiv_reference. Qed.
+Print Assumptions C20_index_equiv_reference.
+
+(* ... and of the pointer-based manager's slab, for every page size, chunk size, capacity, thread: the three
+   stores are indistinguishable through the results of item-level scripts *)
+Theorem C20_stores_equivalent : forall c t s spp ops,
+  IndexStoreProofs.IInv c s -> IndexStore.i_hs s = [] -> (t < length (Alloc.th (IndexStore.i_al s)))%nat -> (1 <= spp)%nat ->
+  forallb ArcSlabRefine.item_op ops = true ->
+  ~ In IndexStore.XOom (IndexStore.idx_exec c t s (map ArcSlabRefine.aop_of ops)) ->
+  IndexStore.idx_exec c t s (map ArcSlabRefine.aop_of ops) =
+    map IndexStoreEquiv.lift (ArcSlabRefine.arc_exec spp (ArcSlab.init spp) ops) /\
+  IndexStore.idx_exec c t s (map ArcSlabRefine.aop_of ops) =
+    map IndexStoreEquiv.lift (ArcSlabRefine.ref_exec ArcSlabRefine.rinit (map ArcSlabRefine.aop_of ops)).
+Proof. exact IndexStoreEquiv.stores_equivalent. Qed.
+Print Assumptions C20_stores_equivalent.
+
+Theorem C20_index_lift_def : forall x,
+  IndexStoreEquiv.lift x = match x with Some r => IndexStore.XOk r | None => IndexStore.XRej end.
+Proof. intros. reflexivity. Qed.
+Print Assumptions C20_index_lift_def.
+
+(* the `Arc` client's OutOfMemory with nothing parked in other threads: exactly when all slots hold a node *)
+Theorem C20_index_arc_oom_single : forall c t s o l s',
+  IndexStoreProofs.IInv c s /\ IndexStore.i_own s = [] /\ (t < length (Alloc.th (IndexStore.i_al s)))%nat ->
+  nth_error (Alloc.th (IndexStore.i_al s)) t = Some l -> AllocProofs.others_idle_p c (IndexStore.i_al s) t ->
+  (exists h p, o = RcStore.AAdd h p /\ RcStore.afind h (IndexStore.i_hs s) = None) ->
+  (IndexStore.arc_step c t s o = (s', IndexStore.XOom) -> Alloc.nlive c (IndexStore.i_al s) = N.to_nat (Alloc.cap c)) /\
+  (Alloc.nlive c (IndexStore.i_al s) = N.to_nat (Alloc.cap c) -> snd (IndexStore.arc_step c t s o) = IndexStore.XOom).
+Proof. exact IndexStoreEquiv.arc_step_oom_single. Qed.
+Print Assumptions C20_index_arc_oom_single.
+
+(* non-vacuity (capacity 6, chunk size 2, slot IDs 2..7): a 21-operation run of two threads through every
+   operation (child edges, borrowed clone, removal releasing children, kept entry, slot re-use across threads,
+   full store); OutOfMemory with 2 of 6 slots parked in two other threads, then a `drop_edge` of a last edge
+   (leak); the three stores on ARCSLAB's example script *)
+Theorem C20_index_example :
+  (exists s, IndexStore.irun AllocExamples.ex_cfg (IndexStore.iinit AllocExamples.ex_cfg 2) IndexStoreExamples.ex_ops =
+               Some (s, IndexStoreExamples.ex_results) /\
+     IndexStoreProofs.no_leak IndexStoreExamples.ex_results = true /\ IndexStoreProofs.IInv AllocExamples.ex_cfg s /\
+     IndexStore.iinv_b AllocExamples.ex_cfg s = true /\
+     IndexStore.i_own s = [(8%nat, 4%N); (4%nat, 6%N)] /\
+     map (IndexStore.nget (IndexStore.i_nodes s)) [2; 3; 4; 5; 6; 7]%N =
+       [Some (10, 1); Some (14, 1); Some (15, 2); Some (16, 2); Some (13, 2); Some (17, 2)]%N) /\
+  (exists s rs s', IndexStore.irun AllocExamples.ex_cfg (IndexStore.iinit AllocExamples.ex_cfg 2) IndexStoreExamples.ex_parked = Some (s, rs) /\
+     IndexStoreProofs.IInv AllocExamples.ex_cfg s /\
+     IndexStore.istep AllocExamples.ex_cfg s (IndexStore.IAdd 2 8 9 5 [0%nat]) = Some (s', IndexStore.IROom false) /\
+     Alloc.live_slots AllocExamples.ex_cfg (IndexStore.i_al s) = [2; 4; 6; 7]%N /\
+     Alloc.thread_slots AllocExamples.ex_cfg (IndexStore.i_al s) 0 = [3%N] /\
+     Alloc.thread_slots AllocExamples.ex_cfg (IndexStore.i_al s) 1 = [5%N] /\
+     (exists s'', IndexStore.istep AllocExamples.ex_cfg s' (IndexStore.IRelease 1) = Some (s'', IndexStore.IRReleased true) /\
+        IndexStore.nget (IndexStore.i_nodes s'') 2 = Some (1, 0)%N /\
+        Alloc.sget (Alloc.sl (IndexStore.i_al s'')) 2 = Alloc.SNode /\ RcStore.afind 1%nat (IndexStore.i_hs s'') = None)) /\
+  (~ In IndexStore.XOom (IndexStore.idx_exec AllocExamples.ex_cfg 0 (IndexStore.iinit AllocExamples.ex_cfg 1)
+                           (map ArcSlabRefine.aop_of ArcSlabExamples.ex_item_ops)) /\
+   IndexStore.idx_exec AllocExamples.ex_cfg 0 (IndexStore.iinit AllocExamples.ex_cfg 1) (map ArcSlabRefine.aop_of ArcSlabExamples.ex_item_ops) =
+     map IndexStoreEquiv.lift (ArcSlabRefine.arc_exec 3 (ArcSlab.init 3) ArcSlabExamples.ex_item_ops) /\
+   IndexStore.idx_exec AllocExamples.ex_cfg 0 (IndexStore.iinit AllocExamples.ex_cfg 1) (map (fun k => RcStore.AAdd k 1) (seq 0 8)) =
+     [IndexStore.XOk RcStore.ARAdded; IndexStore.XOk RcStore.ARAdded; IndexStore.XOk RcStore.ARAdded; IndexStore.XOk RcStore.ARAdded;
+      IndexStore.XOk RcStore.ARAdded; IndexStore.XOk RcStore.ARAdded; IndexStore.XOom; IndexStore.XOom]).
+Proof.
+  split; [|split].
+  - destruct IndexStoreExamples.ex_run as (s & H1 & H2 & _ & H3 & H4 & _ & H5 & H6 & _). exists s. repeat (split; [assumption|]). assumption.
+  - destruct IndexStoreExamples.ex_parked_oom as (s & rs & s' & H1 & H2 & H3 & H4 & H5 & H6 & _ & _ & _ & s'' & G1 & G2 & G3 & _ & G4).
+    exists s, rs, s'. repeat (split; [assumption|]). exists s''. repeat (split; [assumption|]). assumption.
+  - destruct IndexStoreExamples.ex_equiv as (_ & H1 & H2 & _ & H3). repeat (split; [assumption|]). assumption.
+Qed.
+Print Assumptions C20_index_example.
